@@ -35,11 +35,12 @@ pub fn oracle_c05(op: &str, outs: &[String]) -> String {
     if let Some(f) = faults(outs) {
         return f;
     }
-    let (_, evs) = split_events(op);
+    let (hd, evs) = split_events(op);
+    let region = hd.split_whitespace().nth(2).unwrap_or("");
     let mut last: Option<u32> = None;
     let mut last_known = true;
     let mut joined = false;
-    let mut win: Option<(u32, u32)> = None;
+    let mut win: Option<(Option<u32>, Option<u32>)> = None;
     let mut accepted: Vec<u32> = vec![];
     for (ev, out) in evs.iter().zip(outs.iter()) {
         let w: Vec<&str> = ev.split_whitespace().collect();
@@ -61,7 +62,10 @@ pub fn oracle_c05(op: &str, outs: &[String]) -> String {
             }
             "send" => {
                 if let Some(tx) = parse_tx(out) {
-                    win = Some((tx.rx1.mp, tx.rx2.mp));
+                    // the limit is the REFERENCE maximum of the data rate each window was opened at
+                    // (never the number the implementation attached to the window)
+                    let m = |r: &crate::oracle::Rf| ref_max_m(region, r.sf, r.bw);
+                    win = Some((m(&tx.rx1), m(&tx.rx2)));
                 }
             }
             "rx1" | "rx2" | "rxc" => {
@@ -82,8 +86,8 @@ pub fn oracle_c05(op: &str, outs: &[String]) -> String {
                         let f16: u32 = w[6].parse().unwrap_or(0);
                         let mic: Option<u32> = w[7].parse().ok();
                         let mp = match (w[0], win) {
-                            ("rx1", Some((a, _))) => Some(a),
-                            ("rx2", Some((_, b))) => Some(b),
+                            ("rx1", Some((a, _))) => a,
+                            ("rx2", Some((_, b))) => b,
                             _ => None,
                         };
                         let fits = match mp {
@@ -265,6 +269,49 @@ pub fn dr_table(region: &str) -> Vec<Option<(u32, u32)>> {
     };
     t.resize(16, None);
     t
+}
+
+/// RP002 maximum MACPayload size M (no repeater, no dwell-time limit) of the LoRa data rate with
+/// this spreading factor and bandwidth in this region, written from the regional-parameters tables
+/// (not from the repository's `Datarate` constants). A frame fits when PHYPayload <= M + 5.
+pub fn ref_max_m(region: &str, sf: u32, bw: u32) -> Option<u32> {
+    let k = 125_000;
+    Some(match region {
+        "US915" => match (sf, bw) {
+            (10, b) if b == k => 19,
+            (9, b) if b == k => 61,
+            (8, b) if b == k => 133,
+            (7, b) if b == k => 250,
+            (12, 500_000) => 61,
+            (11, 500_000) => 137,
+            (7..=10, 500_000) => 250,
+            _ => return None,
+        },
+        "AU915" => match (sf, bw) {
+            (10..=12, b) if b == k => 59,
+            (9, b) if b == k => 123,
+            (7 | 8, b) if b == k => 250,
+            (12, 500_000) => 61,
+            (11, 500_000) => 137,
+            (7..=10, 500_000) => 250,
+            _ => return None,
+        },
+        "EU868" | "EU433" | "IN865" => match (sf, bw) {
+            (10..=12, b) if b == k => 59,
+            (9, b) if b == k => 123,
+            (7 | 8, b) if b == k => 250,
+            (7, 250_000) if region != "IN865" => 250,
+            _ => return None,
+        },
+        // AS923-1..4 (RP002-1.0.3, DownlinkDwellTime = 0)
+        _ => match (sf, bw) {
+            (11 | 12, b) if b == k => 59,
+            (9 | 10, b) if b == k => 123,
+            (7 | 8, b) if b == k => 250,
+            (7, 250_000) => 250,
+            _ => return None,
+        },
+    })
 }
 
 fn fixed_uplink(region: &str, ch: usize) -> u32 {
@@ -1010,7 +1057,7 @@ pub fn oracle_c12(op: &str, outs: &[String]) -> String {
                     Some(u) => u,
                     None => return "FAIL:uplink-not-decodable".into(),
                 };
-                win12 = Some((tx.rx1.mp, tx.rx2.mp));
+                win12 = Some((ref_max_m(&region, tx.rx1.sf, tx.rx1.bw).unwrap_or(tx.rx1.mp), ref_max_m(&region, tx.rx2.sf, tx.rx2.bw).unwrap_or(tx.rx2.mp)));
                 if resync_dr {
                     // an accepted Class A downlink carried a LinkADRReq: the network may have commanded
                     // another data rate (C08/C09 judge that); the automaton follows the rate in use
